@@ -80,7 +80,7 @@ class SrcFile:
 
     def find_impls(self, header):
         want = re.sub(r'\s+', '', header)
-        c = [it for it in self.all_mods() if it.kind == 'impl' and it.header is not None and re.sub(r'\s+', '', it.header) == want]
+        c = [it for it in self.all_mods() if it.kind in ('impl', 'trait') and it.header is not None and re.sub(r'\s+', '', it.header) == want]
         if not c:
             raise LostAnchor(f'{self.rel}: no impl block with header `{header}`')
         return c
@@ -145,12 +145,13 @@ class FnInfo:
         self.item = item
         toks = sf.toks
         self.toks = toks
-        if item.body_open is None:
-            raise LostAnchor(f'fn {item.name} has no body')
         self.loops = []    # dicts: kw, label_start, open, close
         self.returns = []
         self.breaks = []
         self.closures = []  # dicts: bar1, bar2 (token idx of the two |), body_start tok idx
+        if item.body_open is None:
+            # declaration only (trait method without default body): only `attr` and `sig` anchors exist
+            return
         i = item.body_open + 1
         end = item.body_close
         while i < end:
@@ -260,7 +261,7 @@ class FnInfo:
             if a[0] == 'attr':
                 return self.off(it.first)
             if a[0] == 'sig':
-                return self.off(it.body_open)
+                return self.off(it.body_open if it.body_open is not None else it.last)
             if a[0] == 'entry':
                 return self.end_off(it.body_open)
             if a[0] == 'end':
@@ -460,7 +461,8 @@ def ret_edit(sf, item, name):
         raise LostAnchor(f'fn {item.name}: no return type to name')
     a = k + 3
     b = a
-    while b < item.body_open and not is_id(toks[b], 'where'):
+    stop = item.body_open if item.body_open is not None else item.last
+    while b < stop and not is_id(toks[b], 'where'):
         if toks[b].kind == 'punct' and toks[b].text in ('(', '['):
             b = match_close(toks, b)
         b += 1
@@ -985,7 +987,48 @@ def rw_intovec(fi, args, spec=None):
     return edits
 
 
+def rw_itermut(fi, args, spec=None):
+    """R-ITERMUT K: `for P in X.iter_mut() {` -> index loop with `let P = &mut X[__jK];`
+       `for (I, P) in X.iter_mut().enumerate() {` -> likewise with `let I = __jK;` (index loops in disguise)."""
+    toks = fi.toks
+    src = fi.sf.src
+    edits = []
+    for a in args:
+        lp = fi.loops[int(a)]
+        if lp['kind'] != 'for':
+            raise LostAnchor(f'fn {fi.item.name}: R-ITERMUT on a non-for loop')
+        i = lp['kw']
+        j = i + 1
+        while not is_id(toks[j], 'in'):
+            if toks[j].kind == 'punct' and toks[j].text == '(':
+                j = match_close(toks, j)
+            j += 1
+        pat = src[toks[i + 1].start:toks[j].start].strip()
+        chain = norm(toks, j + 1, lp['open']).replace(' ', '')
+        enum = chain.endswith('.iter_mut().enumerate()')
+        if not (enum or chain.endswith('.iter_mut()')):
+            raise LostAnchor(f'fn {fi.item.name}: R-ITERMUT: unexpected iterator chain `{chain}`')
+        # receiver text: everything before `.iter_mut`
+        k = j + 1
+        while not (is_p(toks[k], '.') and is_id(toks[k + 1], 'iter_mut')):
+            k += 1
+        recv = src[toks[j + 1].start:toks[k].start].strip()
+        n = a
+        if enum:
+            m = re.match(r'^\(\s*([A-Za-z_][A-Za-z0-9_]*)\s*,\s*(.*)\)$', pat, re.S)
+            if not m:
+                raise LostAnchor(f'fn {fi.item.name}: R-ITERMUT: expected `(i, pat)`')
+            binds = f'let {m.group(1)} = __j{n}; let {m.group(2).strip()} = &mut {recv}[__j{n}];'
+        else:
+            binds = f'let {pat} = &mut {recv}[__j{n}];'
+        edits.append((toks[lp['start']].start, toks[lp['start']].start, f'let mut __j{n}: usize = 0; let __n{n}: usize = {recv}.len();\n#[verifier::loop_isolation(false)]\n', 'R-ITERMUT'))
+        edits.append((toks[i].start, toks[lp['open']].start, f'while __j{n} < __n{n} ', 'R-ITERMUT'))
+        edits.append((toks[lp['open']].end, toks[lp['open']].end, f' {binds} __j{n} += 1;', 'R-ITERMUT'))
+    return edits
+
+
 REWRITES = {
+    'R-ITERMUT': rw_itermut,
     'R-INTOVEC': rw_intovec,
     'R-CLOSPAT': rw_clospat,
     'R-ENUM': rw_enum,
@@ -1086,7 +1129,7 @@ def emit_fn(gen, sf, item, spec, canary=False, qual='', in_trait=False):
         name=('__canary_' if canary else '') + item.name, qual=qual, rel=sf.rel,
         line=line_of(src, toks[item.kw].start) + sf.line_base, hash=hashlib.sha256(body.encode()).hexdigest()[:16],
         gen_start=start_line, gen_end=end_line, canary=canary,
-        contract=bool(spec.inserts), loops=len(fi.loops),
+        contract=bool(spec.inserts), loops=len(fi.loops), bodiless=(item.body_open is None),
         shape=dict(loops=len(fi.loops), returns=len(fi.returns), breaks=len(fi.breaks), closures=len(fi.closures)),
         ordinal=any(a.split()[0] in ('loop', 'before-loop', 'after-loop', 'return', 'break', 'closure', 'mapcollect') for a, _, _ in spec.inserts)
                 or any(r in ('R-FOR', 'R-ENUM', 'R-ITER', 'R-HOIST', 'R-INTOVEC', 'R-CUTTAIL', 'R-CLOSPAT', 'R-MAPCOLLECT') for r, _ in spec.rewrites)))
@@ -1430,7 +1473,9 @@ def _generate(unit_path, canaries=True):
                 spec, i = parse_fn_block(i + 1, name, p, ln)
                 item = sf.find_item('fn', name)
                 qual = ''
-            is_trait = cur_impl is not None and bool(re.search(r'\sfor\s', cur_impl[2]))
+            is_trait = cur_impl is not None and (bool(re.search(r'\sfor\s', cur_impl[2])) or cur_impl[2].lstrip().startswith('trait'))
+            if cur_impl is not None and cur_impl[2].lstrip().startswith('trait'):
+                spec.canary = False   # no twin can be added inside a trait declaration
             emit_fn(gen, sf, item, spec, canary=False, qual=qual, in_trait=is_trait)
             if canaries and spec.canary:
                 if cur_impl is not None and re.search(r'\sfor\s', cur_impl[2]):
